@@ -117,6 +117,7 @@ type gen struct {
 	immMaps     map[string]bool
 	pureCache   map[*SpecFunc]bool
 	finalVals   map[*ssa.FreeVar]Val
+	spawning    bool // the call being executed is the operand of a go statement
 	known       map[string]Finding
 	hide        func(name string) bool // spec functions kept uninterpreted (lemma proofs with hide/except)
 	canaryDone  bool
